@@ -424,6 +424,8 @@ func run(c *vh.Ctx, cs Case) {
 		}
 	case "hashfields":
 		hashFields(c, cs)
+	case "hashseq":
+		hashSeq(c, cs)
 	default:
 		panic("unknown op " + cs.Op)
 	}
@@ -533,6 +535,194 @@ func hashFields(c *vh.Ctx, cs Case) {
 	v = cs.S.clone()
 	v.Version = 3
 	differs("version", v)
+}
+
+// refHash: the hash the property prescribes for the CURRENT fields: Blake3 of the
+// encoder's payload bytes for a freshly built snapshot (zero Hash field, no
+// signature).  Independent of Snapshot.PayloadHash and of any state it keeps.
+func refHash(cur *Snap) (h crypto.Hash, ok bool) {
+	st := cur.clone()
+	st.HasSig, st.Mask, st.Sig = false, 0, ""
+	p, pan := payloadBytes(st)
+	if pan {
+		return h, false
+	}
+	return crypto.Blake3Hash(p), true
+}
+
+// hashSeq: stateful sequences on ONE snapshot object, the way the code base uses
+// it (s.Hash = s.PayloadHash(), then the object lives on).  After every change of
+// a committed field the hash must differ from the previous one and equal the hash
+// of a freshly built snapshot with the same fields; a stale or foreign Hash field,
+// the signature and the topological order never influence it.  cs.Topo bit 0
+// selects whether the hash is stored into the Hash field after every step (the
+// usual bookkeeping) or never (control order).
+func hashSeq(c *vh.Ctx, cs Case) {
+	r := vh.NewRand(cs.Topo^cs.S.Ts^cs.S.Round, "hashseq"+cs.S.Node)
+	store := cs.Topo&1 == 1
+	g := cs.S.build()
+	cur := cs.S.clone()
+	call := func() (h crypto.Hash, pan bool) {
+		pan, _ = vh.Catch(func() { h = g.PayloadHash() })
+		return
+	}
+	prev, pan := call()
+	want, ok := refHash(cur)
+	c.Case("hashseq", keyOf(cs), !pan, cs, "")
+	if pan || !ok {
+		c.Fail("hash-panics", "PayloadHash / payload encoder panicked on a well-formed snapshot", cs)
+		return
+	}
+	if prev != want {
+		c.Fail("hash-not-of-payload", "PayloadHash of a fresh snapshot is not the hash of its payload encoding", cs)
+		return
+	}
+	if store {
+		g.Hash = prev
+	}
+	step := func(what string, mustDiffer bool) bool {
+		h, p := call()
+		w, ok := refHash(cur)
+		if p || !ok {
+			c.Fail("hash-panics", "PayloadHash panicked after changing "+what+" on a live snapshot object", cs)
+			return false
+		}
+		if h != w {
+			c.Fail("hash-stale-after-"+what, fmt.Sprintf("after changing %s on a snapshot object (Hash field stored=%v) PayloadHash is not the hash of the current payload", what, store), cs)
+			return false
+		}
+		if mustDiffer && h == prev {
+			c.Fail("hash-ignores-"+what, "payload hash did not change with "+what+" on a live snapshot object", cs)
+			return false
+		}
+		if !mustDiffer && h != prev {
+			c.Fail("hash-depends-on-"+what, "payload hash changed with "+what+" on a live snapshot object", cs)
+			return false
+		}
+		prev = h
+		if store {
+			g.Hash = h
+		}
+		return true
+	}
+	steps := []string{"node", "round", "references", "add-transaction", "replace-transaction", "timestamp", "signature", "version", "foreign-hash"}
+	for i := len(steps) - 1; i > 0; i-- {
+		j := r.Intn(i + 1)
+		steps[i], steps[j] = steps[j], steps[i]
+	}
+	for _, st := range steps {
+		switch st {
+		case "node":
+			cur.Node = flipHex(cur.Node, r)
+			g.NodeId = hash32(cur.Node)
+			if !step("node", true) {
+				return
+			}
+		case "round":
+			if cur.Round == ^uint64(0) {
+				cur.Round--
+			} else {
+				cur.Round++
+			}
+			g.RoundNumber = cur.Round
+			if !step("round", true) {
+				return
+			}
+		case "references":
+			if cur.Refs == nil {
+				cur.Refs = []string{hx(r, 32), hx(r, 32)}
+			} else if r.Bool() && cur.Refs[0] != cur.Refs[1] {
+				cur.Refs = []string{cur.Refs[1], cur.Refs[0]}
+			} else {
+				cur.Refs = []string{cur.Refs[0], flipHex(cur.Refs[1], r)}
+			}
+			g.References = &common.RoundLink{Self: hash32(cur.Refs[0]), External: hash32(cur.Refs[1])}
+			if !step("references", true) {
+				return
+			}
+		case "add-transaction":
+			if cur.Round == 0 || len(cur.Txs) >= 255 {
+				continue // round 0 holds exactly one transaction
+			}
+			t := hx(r, 32)
+			cur.Txs = append(cur.Txs, t)
+			if p, _ := vh.Catch(func() { g.AddTransaction(hash32(t)) }); p {
+				c.Fail("add-transaction-panics", "AddTransaction panicked on a new hash below the maximum", cs)
+				return
+			}
+			if !step("transactions", true) {
+				return
+			}
+		case "replace-transaction":
+			i := r.Intn(len(cur.Txs))
+			old := cur.Txs[i]
+			cur.Txs[i] = flipHex(old, r)
+			dup := false
+			for j, t := range cur.Txs {
+				dup = dup || (j != i && t == cur.Txs[i])
+			}
+			if dup {
+				cur.Txs[i] = old
+				continue
+			}
+			for j := range g.Transactions { // the encoder sorts the object's slice in place: find by value
+				if g.Transactions[j] == hash32(old) {
+					g.Transactions[j] = hash32(cur.Txs[i])
+				}
+			}
+			if !step("transactions", true) {
+				return
+			}
+		case "timestamp":
+			cur.Ts ^= 1 << uint(r.Intn(64))
+			g.Timestamp = cur.Ts
+			if !step("timestamp", true) {
+				return
+			}
+		case "signature":
+			cur.HasSig, cur.Mask, cur.Sig = true, r.U64()|1, hx(r, 64)
+			g.Signature = &crypto.CosiSignature{Mask: cur.Mask}
+			copy(g.Signature.Signature[:], unhex(cur.Sig))
+			if !step("signature", false) {
+				return
+			}
+		case "version":
+			// only version 2 has a payload: any other version must not yield a hash
+			g.Version = 3
+			if _, p := call(); !p {
+				c.Fail("hash-for-unsupported-version", "PayloadHash returned a hash for a snapshot object whose version has no payload encoding", cs)
+				return
+			}
+			g.Version = cur.Version
+			if !step("version", false) {
+				return
+			}
+		case "foreign-hash":
+			copy(g.Hash[:], r.Bytes(32))
+			h, p := call()
+			if p || h != prev {
+				c.Fail("hash-depends-on-hash-field", "a stale / foreign value in the Hash field changed the payload hash", cs)
+				return
+			}
+			if store {
+				g.Hash = h
+			}
+		}
+	}
+	// two snapshots with identical payloads: one fresh, one carrying a foreign Hash
+	// field, another signature and a topological order
+	a := cur.clone()
+	a.HasSig, a.Mask, a.Sig = false, 0, ""
+	ha, pa := payloadHash(a, 0)
+	gb := cur.build()
+	copy(gb.Hash[:], r.Bytes(32))
+	var hb crypto.Hash
+	pb, _ := vh.Catch(func() {
+		hb = (&common.SnapshotWithTopologicalOrder{Snapshot: gb, TopologicalOrder: r.U64()}).PayloadHash()
+	})
+	if pa || pb || ha != hb || ha != prev {
+		c.Fail("hash-depends-on-hash-field", "two snapshots with identical payloads (one carrying a foreign Hash field, signature and topological order) hash differently", cs)
+	}
 }
 
 // ---- generators -------------------------------------------------------------------
@@ -708,6 +898,8 @@ func (g *gen) snapshot(s *Snap, topo uint64, cuts bool, allSeven bool) {
 	if wf {
 		run(c, Case{Op: "roundtrip", S: s, Topo: topo})
 		run(c, Case{Op: "hashfields", S: s, Topo: topo})
+		run(c, Case{Op: "hashseq", S: s, Topo: topo | 1})  // Hash field stored after every step
+		run(c, Case{Op: "hashseq", S: s, Topo: topo &^ 1}) // control order: never stored
 	}
 	if pan {
 		return
@@ -765,7 +957,8 @@ func main() {
 	c := vh.Start("C07")
 	c.Rep.Rule = "structured snapshots over round 0/>0 x references nil/present x 0..257 transaction hashes (sorted, unsorted, duplicate) x signature none/mask 0/mask>0 x version; " +
 		"each is marshalled, payload-encoded, hashed and its encodings (full and without topology) decoded; every truncation and every 1..16-byte extension of corpus encodings, " +
-		"topology suffix cut to 1..7 bytes, single-byte mutations, random bytes behind a valid header. A case is non-trivial when the decoder got past the 44-byte header " +
+		"topology suffix cut to 1..7 bytes, single-byte mutations, random bytes behind a valid header; hand-assembled count/field boundary encodings; stateful hash sequences on one live snapshot object " +
+		"(hash, store into the Hash field or not, change each committed field in turn, hash again; foreign Hash field / signature / topology) checked against Blake3 of the encoder's payload bytes for a fresh object. A case is non-trivial when the decoder got past the 44-byte header " +
 		"(or accepted), or the encoder did not panic; distinct by exact bytes / snapshot fields."
 	if c.Replay != "" {
 		var cs Case
